@@ -279,7 +279,7 @@ def check_direction(prog, rep, m):
     for name, ((dx, dy), want) in cases.items():
         env = {x1: Fraction(3), y1: Fraction(5), x2: Fraction(3 + dx), y2: Fraction(5 + dy)}
         # bind every arctan2 atom to its library value at this point
-        for v, g in k.returns:
+        for v, g in k.returns + k.returns:
             if isinstance(v, Rat):
                 for a in walk_atoms(v):
                     if isinstance(a, App) and a.name == 'arctan2':
